@@ -14,7 +14,11 @@ Inductive event :=
 | Lease (id : N) (op : outpoint) (dur : Z)          (* LockOutput *)
 | Release (id : N) (op : outpoint)                  (* UnlockOutput *)
 | Tick (dt : Z)                                     (* clock advance, dt >= 0 *)
-| Sweep.                                            (* DeleteExpiredLockedOutputs *)
+| Sweep                                             (* DeleteExpiredLockedOutputs *)
+| Redeliver (t : txid) (b : option (Z * N * Z)).    (* a notification for an already recorded tx is
+                                                       applied again through the store API WITHOUT the
+                                                       wallet's early return: InsertTx, then AddCredit
+                                                       for every credit (None = as unconfirmed) *)
 
 Record mstate := { st : store; clock : Z }.
 
@@ -71,6 +75,22 @@ Definition step (U : universe) (m : mstate) (e : event) : mstate * outp :=
     let '(r, s') := unlock_output id op now s in ({| st := s'; clock := now |}, OLock r)
   | Tick dt => ({| st := s; clock := now + dt |}, ONone)
   | Sweep => ({| st := delete_expired now s; clock := now |}, ONone)
+  | Redeliver h ob =>
+    match U !! h with
+    | None => (m, ONone)
+    | Some t =>
+      match ob with
+      | None =>
+        let s1 := (insert_mempool t s).2 in
+        ({| st := foldl (fun s' ic => add_credit t None ic.1 ic.2 s') s1 (t_creds t); clock := now |}, ONone)
+      | Some (bh, bhash, bt) =>
+        match insert_mined U (fuel_of U) t (bh, bhash) bt s with
+        | None => (m, OFuel)
+        | Some (_, s1) =>
+          ({| st := foldl (fun s' ic => add_credit t (Some (bh, bhash)) ic.1 ic.2 s') s1 (t_creds t); clock := now |}, ONone)
+        end
+      end
+    end
   end.
 
 Definition run (U : universe) (h : list event) : mstate :=
@@ -126,6 +146,7 @@ Definition spec_step (U : universe) (m : sstate) (e : event) : sstate :=
   | Tick dt => {| fs := F; sclock := now + dt |}
   | Sweep => {| fs := {| f_conf := f_conf F; f_unconf := f_unconf F;
                          f_leases := filter (fun kv => now < l_expiry kv.2) (f_leases F) |}; sclock := now |}
+  | Redeliver _ _ => m
   end.
 
 Definition spec_run (U : universe) (h : list event) : sstate :=
@@ -182,6 +203,14 @@ Definition event_ok (U : universe) (F : facts) (e : event) : bool :=
   | Release _ _ => true
   | Tick dt => bool_decide (0 <= dt)
   | Sweep => true
+  | Redeliver t ob =>
+    (* only re-deliveries: the transaction is known; a block is named only if
+       it is the block that currently confirms it *)
+    bool_decide (is_Some (U !! t)) &&
+    match ob with
+    | None => known F t
+    | Some (bh, bhash, _) => bool_decide (f_conf F !! t = Some (bh, bhash))
+    end
   end.
 
 Fixpoint consistent_from (U : universe) (m : sstate) (h : list event) : bool :=
